@@ -12,9 +12,14 @@ The set-cache model runs in the configuration of the code as it is (F10 and F17 
 `unfix=snap` / `unfix=spill` switch back to the behaviour before /repo commits d9a4d81 / b91d22f.
 
 usage: drv_cache [unfix=snap] [unfix=spill] [assert-safe]
+       drv_cache conc [unfix=gen]      -- replays gated multi-thread schedules of the set cache (`ccase` / `cev` / `cend`
+                                          lines) step by step through `SetCacheConc.fire`; every observed step must be
+                                          enabled in the model (and every `stage` ordered), every `gread` prints the set
+                                          the model returns; evictions are inferred lazily from `obs=miss` / `obs=noapply`
 -/
 import QbiceVerif.Model.WideCache
 import QbiceVerif.Model.SetCache
+import QbiceVerif.Model.SetCacheConc
 
 open QbiceVerif
 
@@ -245,6 +250,134 @@ def step (dr : Drv) (line : String) : Drv × String :=
       | _, _ => bad
   | [] => bad
 
+
+/-! ### concurrent set-cache schedules -/
+
+def parseSet (t : String) : Option (List Nat) :=
+  if t == "-" then some [] else
+  (t.splitOn ",").foldlM (fun acc part =>
+    match part.splitOn "-" with
+    | [a] => a.toNat?.map fun a => acc ++ [a]
+    | [a, b] => match a.toNat?, b.toNat? with
+                | some a, some b => some (acc ++ (List.range (b + 1 - a)).map (· + a))
+                | _, _ => none
+    | _ => none) []
+
+def kv (toks : List String) (k : String) : Option String :=
+  (toks.find? (·.startsWith (k ++ "="))).map fun t => (t.drop (k.length + 1)).toString
+
+def concFire (st : SetCacheConc.State) (e : SetCacheConc.Ev) : Except String (SetCacheConc.State × Option SetCacheConc.Out) :=
+  if SetCacheConc.guardOk st e = false then .error "unordered-stage"
+  else match SetCacheConc.fire st e with
+    | some r => .ok r
+    | none => .error "not-enabled"
+
+structure ConcDrv where
+  st : SetCacheConc.State
+  pend : List Bool := []          -- committed, not yet notified batches (oldest first): does the batch mention the key?
+
+def concStep (fix : Bool) (dr? : Option ConcDrv) (line : String) : Option ConcDrv × String :=
+  let toks := (line.trimAscii.toString.splitOn " ").filter (· ≠ "")
+  match toks with
+  | "ccase" :: rest =>
+      match (kv rest "thr").bind (·.toNat?), (kv rest "tasks").bind (·.toNat?), (kv rest "db").bind parseSet with
+      | some thr, some n, some db => (some { st := SetCacheConc.init fix thr db n }, "ok")
+      | _, _, _ => (dr?, "bad-op")
+  | ["cend"] => (none, "ok")
+  | "cev" :: name :: args =>
+      match dr? with
+      | none => (dr?, "no-case")
+      | some dr =>
+          let st := dr.st
+          let fireAll (evs : List SetCacheConc.Ev) : Option ConcDrv × String :=
+            match evs.foldlM (fun s e => (concFire s e).map (·.1)) st with
+            | .ok s' => (some { dr with st := s' }, "ok")
+            | .error e => (some dr, e)
+          let nums := (args.filter (fun a => !a.startsWith "obs=")).map (·.toNat?)
+          if nums.any (·.isNone) then (dr?, "bad-op") else
+          let nums := nums.map (·.getD 0)
+          let obs := kv args "obs"
+          match name, nums with
+          | "begin", [t] => fireAll [.begin t]
+          | "submit", [t] => fireAll [.submit t]
+          | "stage", [t, x, i] => if i < 2 then fireAll [.stage t x (i == 1)] else (dr?, "bad-op")
+          | "bump", [t] => fireAll [.bump t]
+          | "wlookup", [t] =>
+              match obs, st.cur with
+              | some "apply", some i =>
+                  match st.entries[i]? with
+                  | some (.inMem _) => fireAll [.wLookup t]
+                  | _ => (dr?, "inadmissible-apply")
+              | some "apply", none => (dr?, "inadmissible-apply")
+              | some "noapply", some i =>
+                  match st.entries[i]? with
+                  | some .tooLarge => fireAll [.wLookup t, .wApply t]
+                  | _ => fireAll [.evict, .wLookup t]
+              | some "noapply", none => fireAll [.wLookup t]
+              | _, _ => (dr?, "bad-op")
+          | "wapply", [t] => fireAll [.wApply t]
+          | "wdowngrade", [t] => fireAll [.wDowngrade t]
+          | "gstart", [t] => fireAll [.gStart t]
+          | "gload", [t] => fireAll [.gLoad t]
+          | "gsnap", [t] => fireAll [.gSnap t]
+          | "glookup", [t] =>
+              match obs, st.cur with
+              | some "hit", some _ => fireAll [.gLookup t]
+              | some "hit", none => (dr?, "inadmissible-hit")
+              | some "miss", some _ => fireAll [.evict, .gLookup t]
+              | some "miss", none => fireAll [.gLookup t]
+              | _, _ => (dr?, "bad-op")
+          | "gretry", [t] => fireAll [.gRetry t]
+          | "gscan", [t] => fireAll [.gScan t]
+          | "ginstall", [t] =>
+              -- obs=inst: the harness saw the closure of `cache.entry` fill the vacant slot; obs=noinst: it did not
+              let j := st.entries.length
+              match obs with
+              | some "inst" =>
+                  let pre : List SetCacheConc.Ev := if st.cur.isSome then [.evict] else []
+                  match (pre ++ [SetCacheConc.Ev.gInstall t]).foldlM (fun (s : SetCacheConc.State) e => (concFire s e).map (·.1)) st with
+                  | .ok s' => if s'.cur == some j then (some { dr with st := s' }, "ok") else (some { dr with st := s' }, "inadmissible-install")
+                  | .error e => (some dr, e)
+              | some "noinst" =>
+                  match concFire st (.gInstall t) with
+                  | .ok (s', _) => if s'.cur == some j then (some { dr with st := s' }, "inadmissible-noinstall") else (some { dr with st := s' }, "ok")
+                  | .error e => (some dr, e)
+              | none => fireAll [.gInstall t]
+              | _ => (dr?, "bad-op")
+          | "gread", [t] =>
+              match concFire st (.gRead t) with
+              | .ok (s', some o) =>
+                  if o.must.all (· ∈ o.out) && o.out.all (· ∈ o.may) then (some { dr with st := s' }, fmtSet o.out)
+                  else (some { dr with st := s' }, "outside-bounds " ++ fmtSet o.out)
+              | .ok (s', none) => (some { dr with st := s' }, "no-output")
+              | .error e => (dr?, e)
+          | "commit", [] =>
+              match st.bat.find? (fun B => B.submitted && B.epoch == st.expected) with
+              | some B =>
+                  match concFire st .commit with
+                  | .ok (s', _) => (some { st := s', pend := dr.pend ++ [!B.ops.isEmpty] }, "ok")
+                  | .error e => (dr?, e)
+              | none => (dr?, "not-enabled")
+          | "notify", [] =>
+              -- the harness notifies every committed batch; the model only queues batches that mention the key
+              match dr.pend with
+              | true :: rest =>
+                  match concFire st .notify with
+                  | .ok (s', _) => (some { st := s', pend := rest }, "ok")
+                  | .error e => (dr?, e)
+              | false :: rest => (some { dr with pend := rest }, "ok")
+              | [] => (dr?, "not-enabled")
+          | "press", [_] => (some dr, "ok")
+          | _, _ => (dr?, "bad-op")
+  | _ => (dr?, "bad-op")
+
+partial def concLoop (h : IO.FS.Stream) (out : IO.FS.Stream) (fix : Bool) (dr? : Option ConcDrv) : IO Unit := do
+  let line ← h.getLine
+  if line.isEmpty then return
+  let (dr', ans) := concStep fix dr? line
+  out.putStrLn ans
+  concLoop h out fix dr'
+
 partial def loop (h : IO.FS.Stream) (out : IO.FS.Stream) (dr : Drv) : IO Unit := do
   let line ← h.getLine
   if line.isEmpty then return
@@ -256,4 +389,7 @@ def main (args : List String) : IO Unit := do
   let cfg : SetCache.Cfg := ⟨!args.contains "unfix=snap", !args.contains "unfix=spill"⟩
   let stdin ← IO.getStdin
   let stdout ← IO.getStdout
+  if args.contains "conc" then
+    concLoop stdin stdout (!args.contains "unfix=gen") none
+    return
   loop stdin stdout { cfg := cfg, assertSafe := args.contains "assert-safe" }
